@@ -2,6 +2,7 @@ package props
 
 import (
 	"fmt"
+	"regexp"
 	"strings"
 
 	"github.com/evolbioinfo/gotree/tree"
@@ -85,6 +86,16 @@ func runC15(c *Ctx, idx int, o *Obs) {
 		for _, pi := range pos {
 			tip := tips[pi]
 			t := mustParse(text)
+			// one graft in three carries a tip with the very name of the tip it replaces (no name is duplicated in
+			// the result: the old tip goes away)
+			gtext, gd, gTips := gtext, gd, G.SortedTips()
+			sameName := false
+			if r.Intn(3) == 0 && regexp.MustCompile(`^[A-Za-z0-9_]+$`).MatchString(tip) {
+				gtext = regexp.MustCompile(`\bg0\b`).ReplaceAllString(gtext, tip)
+				gm := modelOf(mustParse(gtext))
+				gd, gTips, sameName = gm.Dist(ref.MLen), gm.SortedTips(), true
+				o.Ev("graft_with_the_name_of_the_replaced_tip", 1)
+			}
 			g := mustParse(gtext)
 			if r.Intn(2) == 0 {
 				t.ReinitIndexes()
@@ -101,7 +112,7 @@ func runC15(c *Ctx, idx int, o *Obs) {
 				continue
 			}
 			am := modelOf(t)
-			want := append(complement(tips, []string{tip}), G.SortedTips()...)
+			want := append(complement(tips, []string{tip}), gTips...)
 			o.Check(sameStrings(sortedCopy(want), am.SortedTips()), "graft_tipset", "tip set is not old - replaced + grafted", inp+" => "+Trunc(t.Newick(), 1500))
 			ad := am.Dist(ref.MLen)
 			keep := setOf(complement(tips, []string{tip}))
@@ -111,7 +122,7 @@ func runC15(c *Ctx, idx int, o *Obs) {
 			o.Check(d == "", "graft_distance", "inside the grafted tree: "+d, inp+" => "+Trunc(t.Newick(), 1500))
 			// the old tip is no longer reachable
 			for _, x := range am.Tips() {
-				if x == tip {
+				if x == tip && !sameName {
 					o.Check(false, "graft_old_tip", "replaced tip still in the tree", inp)
 				}
 			}
@@ -223,7 +234,25 @@ func runC15(c *Ctx, idx int, o *Obs) {
 				for i, g := range groups {
 					g2[i] = append([]string{}, g...)
 				}
-				layout := gen.Pick(r, "plain", "long-line", "no-final-newline", "long-line")
+				layout := gen.Pick(r, "plain", "long-line", "no-final-newline", "long-line", "names-with-blanks")
+				if layout == "names-with-blanks" {
+					// unquoted labels may contain blanks: new tips called "identical copy N"
+					for i, g := range g2 {
+						for j, nm := range g {
+							if tp, isNew := model[nm]; isNew {
+								nn := fmt.Sprintf("identical copy %d %d", i, j)
+								g2[i][j] = nn
+								delete(model2, nm)
+								model2[nn] = tp
+								for k, w := range want2 {
+									if w == nm {
+										want2[k] = nn
+									}
+								}
+							}
+						}
+					}
+				}
 				if strings.HasPrefix(layout, "long") && len(g2) > 0 {
 					// the existing tip of the first group gets several hundred more identical tips
 					var existing string
